@@ -74,6 +74,8 @@ VERIFY_HELPER = {
     "secp256k1": ("Point::mulgen(&ss).equals(R + P * kk) != 0", None),
     "ed25519": ("(Point::mulgen(&ss) - R - P * kk).xdouble(3).isneutral() != 0", _I128),
     "ed448": ("(Point::mulgen(&ss) - R - P * kk).xdouble(2).isneutral() != 0", "c0.to_vec(), c1.to_vec()"),
+    "ristretto255": ("Point::mulgen(&ss).equals(R + P * kk) != 0", None),
+    "decaf448": ("Point::mulgen(&ss).equals(R + P * kk) != 0", None),
 }
 
 
